@@ -72,6 +72,20 @@ def run_shard(shard, tier, seed, wd, res):
             vals.append(V.aff(g, c.random_point(rng)))
         for P in twist_points(g, rng, 8):
             vals.append(V.aff(g, P))
+        # order-r points of ISOMORPHIC twists: (l^2 x, l^3 y) of a subgroup point lies on y^2 = x^3 + l^6 b and is
+        # annihilated by r under the a = 0 group formulas (which never look at b) - only the curve equation rejects it
+        for _ in range(6):
+            P = G.subgroup_point(g, rng)
+            lam = f.small(rng.choice([2, 3, 5])) if rng.random() < 0.5 else G.rand_fe(g, rng)
+            l2 = f.mul(lam, lam)
+            S = (f.norm(f.mul(P[0], l2)), f.norm(f.mul(P[1], f.mul(l2, lam))))
+            if not c.on_curve(S):
+                vals.append(V.aff(g, S))
+        if g == 2:
+            # a G1 point read as a pair over Fq2 (c1 = 0): on y^2 = x^3 + 4, not on E'
+            P1 = G.subgroup_point(1, rng)
+            vals.append(("a2", ((P1[0], 0), (P1[1], 0), False)))
+            vals.append(("a2", ((0, P1[0]), (0, P1[1]), False)))
         for _ in range(8):
             vals.append(("a%d" % g, (f.rand(rng), f.rand(rng), False)))       # off-curve pairs
         P = G.subgroup_point(g, rng)
